@@ -32,9 +32,13 @@ MANIFEST = dict(
          "hand-written model tied to hostlist.c/opt.c/split.c by differential execution of the real sources built "
          "from /repo's working tree plus constants regenerated from /repo; glibc strtoul/snprintf/strncpy modelled "
          "not verified; numeric parts < 2^64; proved at TEXT level: hostlist_create = expand1 (tokenizer included), "
-         "the command line's first comma split is invisible for every text, the whole -w path = expand2; the -x and "
-         "WCOLL/^file contexts and look-up by name are correspondence/oracle only (pinned + generated cases on the "
-         "real pdsh / hostlist_find); harness, generators, gcc, ASan/UBSan trusted")
+         "the command line's first comma split is invisible for every text, the whole -w path = expand2 (the "
+         "hostrange_shift buffer hypothesis discharged for texts <= 10^15/16384 bytes); for EVERY byte string the "
+         "list hostlist_create returns and the one wcoll_expand leaves denote the expansions of the independent "
+         "string-level reader (Spec.classify hosts1 / hosts2); the -x and ^file contexts from the option texts and "
+         "look-up by name are proved by composition with C02's / C10's / C16's theorems inside their decidable "
+         "domains (names with digit tails <= 2^25) and exercised by pinned + generated cases on the real pdsh / "
+         "hostlist_find; harness, generators, gcc, ASan/UBSan trusted")
 
 
 def crash_signature(s, p):
